@@ -497,6 +497,20 @@ fn item(f: FId) -> BoxedStrategy<Item> {
         }),
         5 => near_modulus(fl).prop_map(|(v, family)| Item::Checked { v, family }),
         5 => (gen::fe(&m), gen::fe(&m), any::<u8>(), any::<bool>()).prop_map(|(a, b, flag_sel, same)| Item::Elems { b: if same { a.clone() } else { b }, a, flag_sel }),
+        // values with decimal structure: a * 10^k + c (long runs of zero digits, aligned or not with any
+        // digit grouping), 10^k - 1 (runs of nines), for printers and parsers that work in digit groups
+        2 => {
+            let m3 = m.clone();
+            (0u32..116, 0u32..60, 1u64..1000, prop_oneof![Just(0u64), Just(1u64), Just(5u64), 0u64..1_000_000_000], 0u8..3, any::<u8>()).prop_map(move |(k, k2, a, c, kind, flag_sel)| {
+                let ten = N::from(10u32);
+                let v = match kind {
+                    0 => N::from(a) * ten.pow(k) + N::from(c),
+                    1 => N::from(a) * ten.pow(k) + N::from(c) * ten.pow(k2.min(k)),
+                    _ => ten.pow(k) - 1u32,
+                } % &m3;
+                Item::Elems { b: Num((&v + 1u32) % &m3), a: Num(v), flag_sel }
+            })
+        },
         // pairs that agree in most limbs and differ in two limbs in opposite directions
         // (b = a + u*2^(64i) - v*2^(64j)): what a limb-order slip in Ord / Eq / Hash needs
         3 => {
